@@ -137,6 +137,9 @@ func (db *Backend) ListBucket(name string, prefix *gofakes3.Prefix, page gofakes
 	if !page.IsEmpty() {
 		return nil, gofakes3.ErrInternalPageNotImplemented
 	}
+	if bytes.Equal([]byte(name), db.metaBucketName) {
+		return nil, gofakes3.BucketNotFound(name)
+	}
 
 	objects := gofakes3.NewObjectList()
 
@@ -180,6 +183,10 @@ func (db *Backend) ListBucket(name string, prefix *gofakes3.Prefix, page gofakes
 }
 
 func (db *Backend) CreateBucket(name string) error {
+	if bytes.Equal([]byte(name), db.metaBucketName) {
+		return gofakes3.ResourceError(gofakes3.ErrInvalidBucketName, name)
+	}
+
 	return db.bolt.Update(func(tx *bolt.Tx) error {
 		{ // create bucket metadata
 			metaBucket, err := db.metaBucket(tx)
@@ -284,6 +291,10 @@ func (db *Backend) ForceDeleteBucket(name string) error {
 }
 
 func (db *Backend) BucketExists(name string) (exists bool, err error) {
+	if bytes.Equal([]byte(name), db.metaBucketName) {
+		return false, nil
+	}
+
 	err = db.bolt.View(func(tx *bolt.Tx) error {
 		b := tx.Bucket([]byte(name))
 		exists = b != nil
@@ -302,6 +313,10 @@ func (db *Backend) HeadObject(bucketName, objectName string) (*gofakes3.Object, 
 }
 
 func (db *Backend) GetObject(bucketName, objectName string, rangeRequest *gofakes3.ObjectRangeRequest) (*gofakes3.Object, error) {
+	if bytes.Equal([]byte(bucketName), db.metaBucketName) {
+		return nil, gofakes3.BucketNotFound(bucketName)
+	}
+
 	var t boltObject
 
 	err := db.bolt.View(func(tx *bolt.Tx) error {
@@ -336,6 +351,10 @@ func (db *Backend) PutObject(
 	meta map[string]string,
 	input io.Reader, size int64,
 ) (result gofakes3.PutObjectResult, err error) {
+
+	if bytes.Equal([]byte(bucketName), db.metaBucketName) {
+		return result, gofakes3.BucketNotFound(bucketName)
+	}
 
 	bts, err := gofakes3.ReadAll(input, size)
 	if err != nil {
@@ -379,6 +398,10 @@ func (db *Backend) CopyObject(srcBucket, srcKey, dstBucket, dstKey string, meta 
 }
 
 func (db *Backend) DeleteObject(bucketName, objectName string) (result gofakes3.ObjectDeleteResult, rerr error) {
+	if bytes.Equal([]byte(bucketName), db.metaBucketName) {
+		return result, gofakes3.BucketNotFound(bucketName)
+	}
+
 	return result, db.bolt.Update(func(tx *bolt.Tx) error {
 		b := tx.Bucket([]byte(bucketName))
 		if b == nil {
@@ -392,6 +415,10 @@ func (db *Backend) DeleteObject(bucketName, objectName string) (result gofakes3.
 }
 
 func (db *Backend) DeleteMulti(bucketName string, objects ...string) (result gofakes3.MultiDeleteResult, err error) {
+	if bytes.Equal([]byte(bucketName), db.metaBucketName) {
+		return result, gofakes3.BucketNotFound(bucketName)
+	}
+
 	err = db.bolt.Update(func(tx *bolt.Tx) error {
 		b := tx.Bucket([]byte(bucketName))
 		if b == nil {
